@@ -18,3 +18,10 @@ Proof. induction l1 as [|a l1 IH]; cbn; intro H; [constructor|]. inversion H as 
   constructor; [intro Hin; apply Hn; apply in_or_app; left; exact Hin|apply IH; exact Hd]. Qed.
 Lemma NoDup_app_r {A} (l1 l2 : list A) : NoDup (l1 ++ l2) -> NoDup l2.
 Proof. induction l1 as [|a l1 IH]; cbn; intro H; [exact H|]. inversion H; subst. apply IH; assumption. Qed.
+Lemma nth_repeat_lt' {B} (x d : B) n j : j < n -> nth j (repeat x n) d = x.
+Proof. revert j. induction n as [|n IH]; intros [|j] Hj; cbn; try lia; [reflexivity|apply IH; lia]. Qed.
+Lemma nth_skipn {A} (l : list A) n i d : nth i (skipn n l) d = nth (n + i) l d.
+Proof. revert l. induction n as [|n IH]; intro l; [reflexivity|]. destruct l as [|x l]; [destruct i; reflexivity|]. cbn. apply IH. Qed.
+Lemma nth_firstn_lt {A} (l : list A) n i d : i < n -> nth i (firstn n l) d = nth i l d.
+Proof. revert l i. induction n as [|n IH]; intros l i H; [lia|]. destruct l as [|x l]; [reflexivity|].
+  destruct i as [|i]; [reflexivity|]. cbn. apply IH. lia. Qed.
